@@ -78,6 +78,21 @@ def run(tier, seed):
         ad = authsim.authdata("example.com", 0x05, 9)
         a = authsim.Assertion(edz, s.cred_id, cdj, ad, edz.sign(ad + hashlib.sha256(cdj).digest()))
         A.run_case(impl.AuthPolicy(b"c" * 16, "example.com", "https://example.com", edz.cose_bytes, 0, False), a, "record", "accept", "authenticate-after/ed25519-leading-zero-key")
+    # the id registration returns is the ATTESTED credential id (inside the signed authenticator data), whatever outer rawId / id the
+    # client put around it: that is the id the authenticator will present when it authenticates
+    for fmt in ("none", "packed-self"):
+        s = regsim.RScn(fmt, "ES256-P256")
+        s.cred_id = b"attested-credential-id-" + fmt.encode()
+        s.k["outer_raw_id"] = b"some-other-credential's-id"
+        pd, reg = regsim.build(s)
+        pol = regrun.policy_of(pd)
+        il, ml = B.run_case(pol, reg, "dict", None, f"register/{fmt}/outer-rawid-differs-from-attested-id", scn=s)
+        if il.startswith("OK"):
+            with impl.substituted(pol.substitute, pol.now):
+                vr = webauthn.verify_registration_response(credential=reg.as_dict(), **pol.kwargs())
+            if vr.credential_id != s.cred_id:
+                chk.violation("registration returned a credential id other than the attested one", f"returned-id {fmt} outer-rawid",
+                              {"fmt": fmt, "returned": vr.credential_id.hex(), "attested": s.cred_id.hex(), "outer_raw_id": s.k["outer_raw_id"].hex(), "credential": reg.as_dict()})
     # RSA credential with a public exponent other than 65537: register (no signature by the credential key involved), then authenticate
     for e in (65539, 3):
         rc = authsim.rsa_cred_exponent(e)
